@@ -594,9 +594,48 @@ def replay(path):
         shutil.rmtree(tmp, ignore_errors=True)
 
 
+def diff_solvers(pid, solvers=("z3-new", "z3", "cvc5")):
+    """Re-run the quick jobs of a property under each solver and compare what must not depend on
+    the solver: feasible paths, infeasible branches, violations. Any `(error`/unknown is reported."""
+    import checks
+    spec = checks.PROPS[pid]
+    jobs = [j for j in spec["jobs"] if j.tier == "quick"]
+    tmp = tempfile.mkdtemp(prefix="vdiff_%s_" % pid)
+    bad = 0
+    try:
+        if not os.path.exists(GOSYM):
+            build_engine()
+        ov = {}
+        for j in jobs:
+            if j.pkg not in ov:
+                ov[j.pkg] = build_overlay(j.pkg, tmp)
+        for j in jobs:
+            rows = {}
+            for sv in solvers:
+                r = run_gosym(j, ov[j.pkg], tmp, solver=sv)
+                rows[sv] = (r["paths"], r["infeasible"], sorted((v["args"], v["kind"], v["msg"]) for v in r["violations"] or []),
+                            r["inconclusive"], r["unsupported"])
+            ref = rows[solvers[0]]
+            for sv in solvers[1:]:
+                same = rows[sv][:3] == ref[:3]
+                note = "" if same else "  <-- DIFFERS"
+                if rows[sv][3] or ref[3]:
+                    note += "  (inconclusive: %s=%d %s=%d)" % (solvers[0], ref[3], sv, rows[sv][3])
+                    same = same or (rows[sv][3] > 0 or ref[3] > 0)
+                if not same:
+                    bad += 1
+                print("%-55s %s paths=%d infeasible=%d viol=%d | %s paths=%d infeasible=%d viol=%d%s" % (
+                    j.key(), solvers[0], ref[0], ref[1], len(ref[2]), sv, rows[sv][0], rows[sv][1], len(rows[sv][2]), note), flush=True)
+    finally:
+        shutil.rmtree(tmp, ignore_errors=True)
+    return 1 if bad else 0
+
+
 def main():
     a = sys.argv[1:]
     try:
+        if len(a) >= 2 and a[0] == "--diff-solvers":
+            return max(diff_solvers(p) for p in a[1:])
         if a and a[0] == "--setup":
             return setup()
         if len(a) == 2 and a[0] == "--replay":
